@@ -111,7 +111,7 @@ class TradeSpec:
 class MakeTrades(Contract):
     relpath, qual = REL, "Rebalancing.make_trades"
     props = ("C03", "C12", "C13")
-    shards = [[0, 0], [0, 1], [1, 0], [1, 1]]       # measure x fractional
+    shards = [[a, b, c] for a in (0, 1) for b in (0, 1) for c in (0, 1)]       # measure x fractional x first body decision
 
     def pre_state(self, I):
         measure = ["weight", "nr-contracts"][I.choice(2)]
